@@ -12,6 +12,8 @@ pub struct Renaming {
     pub methods: BTreeMap<String, String>,
     pub fns: BTreeMap<String, String>,
     pub locals: BTreeMap<String, String>,
+    /// print every constructor use / pattern with its enum qualifier (needed when variants of different enums share a name)
+    pub qualify_all: bool,
 }
 
 fn m(map: &BTreeMap<String, String>, n: &str) -> String {
@@ -38,7 +40,7 @@ impl Renaming {
             Pat::Tuple(ps) => Pat::Tuple(ps.iter().map(|q| self.pat(q)).collect()),
             Pat::Struct { name, fields } => Pat::Struct { name: m(&self.types, name), fields: fields.iter().map(|(f, q)| (m(&self.fields, f), self.pat(q))).collect() },
             Pat::Constr { enum_name, variant, args, qualified } => {
-                Pat::Constr { enum_name: m(&self.types, enum_name), variant: m(&self.variants, variant), args: args.iter().map(|q| self.pat(q)).collect(), qualified: *qualified }
+                Pat::Constr { enum_name: m(&self.types, enum_name), variant: m(&self.variants, variant), args: args.iter().map(|q| self.pat(q)).collect(), qualified: *qualified || self.qualify_all }
             }
             other => other.clone(),
         }
@@ -61,7 +63,7 @@ impl Renaming {
             Expr::Array(es) => Expr::Array(self.exprs(es)),
             Expr::StructLit { name, ty, fields } => Expr::StructLit { name: m(&self.types, name), ty: self.ty(ty), fields: fields.iter().map(|(f, x)| (m(&self.fields, f), self.expr(x))).collect() },
             Expr::Constr { enum_name, variant, ty, args, qualified } => {
-                Expr::Constr { enum_name: m(&self.types, enum_name), variant: m(&self.variants, variant), ty: self.ty(ty), args: self.exprs(args), qualified: *qualified }
+                Expr::Constr { enum_name: m(&self.types, enum_name), variant: m(&self.variants, variant), ty: self.ty(ty), args: self.exprs(args), qualified: *qualified || self.qualify_all }
             }
             Expr::Field(x, f) => Expr::Field(b(x), m(&self.fields, f)),
             Expr::Proj(x, i) => Expr::Proj(b(x), *i),
